@@ -64,6 +64,17 @@ func drainChannel[T any](ch <-chan T) {
 	}
 }
 
+// drainInfiniteChannel removes everything queued on ch. A non-blocking
+// receive loop on Out() is not enough for this: the pump goroutine of the
+// channel offers one item at a time, so whatever is still in its buffer when
+// the loop finds Out() momentarily empty would be left behind.
+// The caller must be the only consumer.
+func drainInfiniteChannel(ch *channels.InfiniteChannel) {
+	for ch.Len() > 0 {
+		<-ch.Out()
+	}
+}
+
 func cleanInfiniteChannel(ch *channels.InfiniteChannel) {
 	ch.Close()
 	// drain all remaining items. The pump goroutine closes Out() once the
